@@ -1,7 +1,23 @@
 
+(** val negb : bool -> bool **)
+
+let negb = function
+| true -> false
+| false -> true
+
 type nat =
 | O
 | S of nat
+
+(** val fst : ('a1 * 'a2) -> 'a1 **)
+
+let fst = function
+| (x, _) -> x
+
+(** val snd : ('a1 * 'a2) -> 'a2 **)
+
+let snd = function
+| (_, y) -> y
 
 (** val length : 'a1 list -> nat **)
 
@@ -11,10 +27,10 @@ let rec length = function
 
 (** val app : 'a1 list -> 'a1 list -> 'a1 list **)
 
-let rec app l m =
+let rec app l m0 =
   match l with
-  | [] -> m
-  | a :: l1 -> a :: (app l1 m)
+  | [] -> m0
+  | a :: l1 -> a :: (app l1 m0)
 
 type comparison =
 | Eq
@@ -30,35 +46,53 @@ let compOpp = function
 
 module Coq__1 = struct
  (** val add : nat -> nat -> nat **)
- let rec add n0 m =
+ let rec add n0 m0 =
    match n0 with
-   | O -> m
-   | S p -> S (add p m)
+   | O -> m0
+   | S p -> S (add p m0)
 end
 include Coq__1
 
-(** val nth : nat -> 'a1 list -> 'a1 -> 'a1 **)
+(** val sub : nat -> nat -> nat **)
 
-let rec nth n0 l default =
+let rec sub n0 m0 =
   match n0 with
-  | O -> (match l with
-          | [] -> default
-          | x :: _ -> x)
-  | S m -> (match l with
-            | [] -> default
-            | _ :: t -> nth m t default)
+  | O -> n0
+  | S k -> (match m0 with
+            | O -> n0
+            | S l -> sub k l)
 
-(** val rev : 'a1 list -> 'a1 list **)
+module Nat =
+ struct
+  (** val leb : nat -> nat -> bool **)
 
-let rec rev = function
-| [] -> []
-| x :: l' -> app (rev l') (x :: [])
+  let rec leb n0 m0 =
+    match n0 with
+    | O -> true
+    | S n' -> (match m0 with
+               | O -> false
+               | S m' -> leb n' m')
 
-(** val map : ('a1 -> 'a2) -> 'a1 list -> 'a2 list **)
+  (** val ltb : nat -> nat -> bool **)
 
-let rec map f = function
-| [] -> []
-| a :: t -> (f a) :: (map f t)
+  let ltb n0 m0 =
+    leb (S n0) m0
+ end
+
+(** val existsb : ('a1 -> bool) -> 'a1 list -> bool **)
+
+let rec existsb f = function
+| [] -> false
+| a :: l0 -> (||) (f a) (existsb f l0)
+
+(** val firstn : nat -> 'a1 list -> 'a1 list **)
+
+let rec firstn n0 l =
+  match n0 with
+  | O -> []
+  | S n1 -> (match l with
+             | [] -> []
+             | a :: l0 -> a :: (firstn n1 l0))
 
 (** val skipn : nat -> 'a1 list -> 'a1 list **)
 
@@ -68,18 +102,6 @@ let rec skipn n0 l =
   | S n1 -> (match l with
              | [] -> []
              | _ :: l0 -> skipn n1 l0)
-
-(** val seq : nat -> nat -> nat list **)
-
-let rec seq start = function
-| O -> []
-| S len0 -> start :: (seq (S start) len0)
-
-(** val repeat : 'a1 -> nat -> 'a1 list **)
-
-let rec repeat x = function
-| O -> []
-| S k -> x :: (repeat x k)
 
 type positive =
 | XI of positive
@@ -291,10 +313,10 @@ module Pos =
 
   (** val iter_op : ('a1 -> 'a1 -> 'a1) -> positive -> 'a1 -> 'a1 **)
 
-  let rec iter_op op p a =
+  let rec iter_op op0 p a =
     match p with
-    | XI p0 -> op a (iter_op op p0 (op a a))
-    | XO p0 -> iter_op op p0 (op a a)
+    | XI p0 -> op0 a (iter_op op0 p0 (op0 a a))
+    | XO p0 -> iter_op op0 p0 (op0 a a)
     | XH -> a
 
   (** val to_nat : positive -> nat **)
@@ -319,37 +341,37 @@ module N =
 
   (** val add : n -> n -> n **)
 
-  let add n0 m =
+  let add n0 m0 =
     match n0 with
-    | N0 -> m
-    | Npos p -> (match m with
+    | N0 -> m0
+    | Npos p -> (match m0 with
                  | N0 -> n0
                  | Npos q -> Npos (Pos.add p q))
 
   (** val mul : n -> n -> n **)
 
-  let mul n0 m =
+  let mul n0 m0 =
     match n0 with
     | N0 -> N0
-    | Npos p -> (match m with
+    | Npos p -> (match m0 with
                  | N0 -> N0
                  | Npos q -> Npos (Pos.mul p q))
 
   (** val coq_lor : n -> n -> n **)
 
-  let coq_lor n0 m =
+  let coq_lor n0 m0 =
     match n0 with
-    | N0 -> m
-    | Npos p -> (match m with
+    | N0 -> m0
+    | Npos p -> (match m0 with
                  | N0 -> n0
                  | Npos q -> Npos (Pos.coq_lor p q))
 
   (** val ldiff : n -> n -> n **)
 
-  let ldiff n0 m =
+  let ldiff n0 m0 =
     match n0 with
     | N0 -> N0
-    | Npos p -> (match m with
+    | Npos p -> (match m0 with
                  | N0 -> n0
                  | Npos q -> Pos.ldiff p q)
 
@@ -434,8 +456,8 @@ module Z =
 
   (** val sub : z -> z -> z **)
 
-  let sub m n0 =
-    add m (opp n0)
+  let sub m0 n0 =
+    add m0 (opp n0)
 
   (** val mul : z -> z -> z **)
 
@@ -452,18 +474,6 @@ module Z =
        | Z0 -> Z0
        | Zpos y' -> Zneg (Pos.mul x' y')
        | Zneg y' -> Zpos (Pos.mul x' y'))
-
-  (** val pow_pos : z -> positive -> z **)
-
-  let pow_pos z0 =
-    Pos.iter (mul z0) (Zpos XH)
-
-  (** val pow : z -> z -> z **)
-
-  let pow x = function
-  | Z0 -> Zpos XH
-  | Zpos p -> pow_pos x p
-  | Zneg _ -> Z0
 
   (** val compare : z -> z -> comparison **)
 
@@ -493,20 +503,6 @@ module Z =
   let ltb x y =
     match compare x y with
     | Lt -> true
-    | _ -> false
-
-  (** val geb : z -> z -> bool **)
-
-  let geb x y =
-    match compare x y with
-    | Lt -> false
-    | _ -> true
-
-  (** val gtb : z -> z -> bool **)
-
-  let gtb x y =
-    match compare x y with
-    | Gt -> true
     | _ -> false
 
   (** val eqb : z -> z -> bool **)
@@ -589,11 +585,6 @@ module Z =
           | _ -> ((opp (add q (Zpos XH))), (sub b r)))
        | Zneg b' -> let (q, r) = pos_div_eucl a' (Zpos b') in (q, (opp r)))
 
-  (** val div : z -> z -> z **)
-
-  let div a b =
-    let (q, _) = div_eucl a b in q
-
   (** val modulo : z -> z -> z **)
 
   let modulo a b =
@@ -638,466 +629,725 @@ module Z =
          Zneg (N.succ_pos (N.coq_lor (Pos.pred_N a0) (Pos.pred_N b0))))
  end
 
-(** val wrap32 : z -> z **)
+(** val eAGAIN : z **)
 
-let wrap32 z0 =
-  Z.sub
-    (Z.modulo
-      (Z.add z0 (Zpos (XO (XO (XO (XO (XO (XO (XO (XO (XO (XO (XO (XO (XO (XO
-        (XO (XO (XO (XO (XO (XO (XO (XO (XO (XO (XO (XO (XO (XO (XO (XO (XO
-        XH))))))))))))))))))))))))))))))))) (Zpos (XO (XO (XO (XO (XO (XO (XO
-      (XO (XO (XO (XO (XO (XO (XO (XO (XO (XO (XO (XO (XO (XO (XO (XO (XO (XO
-      (XO (XO (XO (XO (XO (XO (XO XH)))))))))))))))))))))))))))))))))) (Zpos
-    (XO (XO (XO (XO (XO (XO (XO (XO (XO (XO (XO (XO (XO (XO (XO (XO (XO (XO
-    (XO (XO (XO (XO (XO (XO (XO (XO (XO (XO (XO (XO (XO
-    XH))))))))))))))))))))))))))))))))
+let eAGAIN =
+  Zpos (XI (XI (XO XH)))
 
-(** val tABLE : z list **)
+(** val eFBIG : z **)
 
-let tABLE =
-  (Zpos (XI (XO (XO (XO (XO (XO XH))))))) :: ((Zpos (XO (XI (XO (XO (XO (XO
-    XH))))))) :: ((Zpos (XI (XI (XO (XO (XO (XO XH))))))) :: ((Zpos (XO (XO
-    (XI (XO (XO (XO XH))))))) :: ((Zpos (XI (XO (XI (XO (XO (XO
-    XH))))))) :: ((Zpos (XO (XI (XI (XO (XO (XO XH))))))) :: ((Zpos (XI (XI
-    (XI (XO (XO (XO XH))))))) :: ((Zpos (XO (XO (XO (XI (XO (XO
-    XH))))))) :: ((Zpos (XI (XO (XO (XI (XO (XO XH))))))) :: ((Zpos (XO (XI
-    (XO (XI (XO (XO XH))))))) :: ((Zpos (XI (XI (XO (XI (XO (XO
-    XH))))))) :: ((Zpos (XO (XO (XI (XI (XO (XO XH))))))) :: ((Zpos (XI (XO
-    (XI (XI (XO (XO XH))))))) :: ((Zpos (XO (XI (XI (XI (XO (XO
-    XH))))))) :: ((Zpos (XI (XI (XI (XI (XO (XO XH))))))) :: ((Zpos (XO (XO
-    (XO (XO (XI (XO XH))))))) :: ((Zpos (XI (XO (XO (XO (XI (XO
-    XH))))))) :: ((Zpos (XO (XI (XO (XO (XI (XO XH))))))) :: ((Zpos (XI (XI
-    (XO (XO (XI (XO XH))))))) :: ((Zpos (XO (XO (XI (XO (XI (XO
-    XH))))))) :: ((Zpos (XI (XO (XI (XO (XI (XO XH))))))) :: ((Zpos (XO (XI
-    (XI (XO (XI (XO XH))))))) :: ((Zpos (XI (XI (XI (XO (XI (XO
-    XH))))))) :: ((Zpos (XO (XO (XO (XI (XI (XO XH))))))) :: ((Zpos (XI (XO
-    (XO (XI (XI (XO XH))))))) :: ((Zpos (XO (XI (XO (XI (XI (XO
-    XH))))))) :: ((Zpos (XI (XO (XO (XO (XO (XI XH))))))) :: ((Zpos (XO (XI
-    (XO (XO (XO (XI XH))))))) :: ((Zpos (XI (XI (XO (XO (XO (XI
-    XH))))))) :: ((Zpos (XO (XO (XI (XO (XO (XI XH))))))) :: ((Zpos (XI (XO
-    (XI (XO (XO (XI XH))))))) :: ((Zpos (XO (XI (XI (XO (XO (XI
-    XH))))))) :: ((Zpos (XI (XI (XI (XO (XO (XI XH))))))) :: ((Zpos (XO (XO
-    (XO (XI (XO (XI XH))))))) :: ((Zpos (XI (XO (XO (XI (XO (XI
-    XH))))))) :: ((Zpos (XO (XI (XO (XI (XO (XI XH))))))) :: ((Zpos (XI (XI
-    (XO (XI (XO (XI XH))))))) :: ((Zpos (XO (XO (XI (XI (XO (XI
-    XH))))))) :: ((Zpos (XI (XO (XI (XI (XO (XI XH))))))) :: ((Zpos (XO (XI
-    (XI (XI (XO (XI XH))))))) :: ((Zpos (XI (XI (XI (XI (XO (XI
-    XH))))))) :: ((Zpos (XO (XO (XO (XO (XI (XI XH))))))) :: ((Zpos (XI (XO
-    (XO (XO (XI (XI XH))))))) :: ((Zpos (XO (XI (XO (XO (XI (XI
-    XH))))))) :: ((Zpos (XI (XI (XO (XO (XI (XI XH))))))) :: ((Zpos (XO (XO
-    (XI (XO (XI (XI XH))))))) :: ((Zpos (XI (XO (XI (XO (XI (XI
-    XH))))))) :: ((Zpos (XO (XI (XI (XO (XI (XI XH))))))) :: ((Zpos (XI (XI
-    (XI (XO (XI (XI XH))))))) :: ((Zpos (XO (XO (XO (XI (XI (XI
-    XH))))))) :: ((Zpos (XI (XO (XO (XI (XI (XI XH))))))) :: ((Zpos (XO (XI
-    (XO (XI (XI (XI XH))))))) :: ((Zpos (XO (XO (XO (XO (XI
-    XH)))))) :: ((Zpos (XI (XO (XO (XO (XI XH)))))) :: ((Zpos (XO (XI (XO (XO
-    (XI XH)))))) :: ((Zpos (XI (XI (XO (XO (XI XH)))))) :: ((Zpos (XO (XO (XI
-    (XO (XI XH)))))) :: ((Zpos (XI (XO (XI (XO (XI XH)))))) :: ((Zpos (XO (XI
-    (XI (XO (XI XH)))))) :: ((Zpos (XI (XI (XI (XO (XI XH)))))) :: ((Zpos (XO
-    (XO (XO (XI (XI XH)))))) :: ((Zpos (XI (XO (XO (XI (XI XH)))))) :: ((Zpos
-    (XI (XI (XO (XI (XO XH)))))) :: ((Zpos (XI (XI (XI (XI (XO
-    XH)))))) :: [])))))))))))))))))))))))))))))))))))))))))))))))))))))))))))))))
+let eFBIG =
+  Zpos (XI (XI (XO (XI XH))))
 
-(** val iNV_TABLE : z list **)
+(** val eINTR : z **)
 
-let iNV_TABLE =
-  (Zneg XH) :: ((Zneg XH) :: ((Zneg XH) :: ((Zneg XH) :: ((Zneg XH) :: ((Zneg
-    XH) :: ((Zneg XH) :: ((Zneg XH) :: ((Zneg XH) :: ((Zneg XH) :: ((Zneg
-    XH) :: ((Zneg XH) :: ((Zneg XH) :: ((Zneg XH) :: ((Zneg XH) :: ((Zneg
-    XH) :: ((Zneg XH) :: ((Zneg XH) :: ((Zneg XH) :: ((Zneg XH) :: ((Zneg
-    XH) :: ((Zneg XH) :: ((Zneg XH) :: ((Zneg XH) :: ((Zneg XH) :: ((Zneg
-    XH) :: ((Zneg XH) :: ((Zneg XH) :: ((Zneg XH) :: ((Zneg XH) :: ((Zneg
-    XH) :: ((Zneg XH) :: ((Zneg XH) :: ((Zneg XH) :: ((Zneg XH) :: ((Zneg
-    XH) :: ((Zneg XH) :: ((Zneg XH) :: ((Zneg XH) :: ((Zneg XH) :: ((Zneg
-    XH) :: ((Zneg XH) :: ((Zneg XH) :: ((Zpos (XO (XI (XI (XI (XI
-    XH)))))) :: ((Zneg XH) :: ((Zneg XH) :: ((Zneg XH) :: ((Zpos (XI (XI (XI
-    (XI (XI XH)))))) :: ((Zpos (XO (XO (XI (XO (XI XH)))))) :: ((Zpos (XI (XO
-    (XI (XO (XI XH)))))) :: ((Zpos (XO (XI (XI (XO (XI XH)))))) :: ((Zpos (XI
-    (XI (XI (XO (XI XH)))))) :: ((Zpos (XO (XO (XO (XI (XI XH)))))) :: ((Zpos
-    (XI (XO (XO (XI (XI XH)))))) :: ((Zpos (XO (XI (XO (XI (XI
-    XH)))))) :: ((Zpos (XI (XI (XO (XI (XI XH)))))) :: ((Zpos (XO (XO (XI (XI
-    (XI XH)))))) :: ((Zpos (XI (XO (XI (XI (XI XH)))))) :: ((Zneg
-    XH) :: ((Zneg XH) :: ((Zneg XH) :: ((Zneg XH) :: ((Zneg XH) :: ((Zneg
-    XH) :: ((Zneg XH) :: (Z0 :: ((Zpos XH) :: ((Zpos (XO XH)) :: ((Zpos (XI
-    XH)) :: ((Zpos (XO (XO XH))) :: ((Zpos (XI (XO XH))) :: ((Zpos (XO (XI
-    XH))) :: ((Zpos (XI (XI XH))) :: ((Zpos (XO (XO (XO XH)))) :: ((Zpos (XI
-    (XO (XO XH)))) :: ((Zpos (XO (XI (XO XH)))) :: ((Zpos (XI (XI (XO
-    XH)))) :: ((Zpos (XO (XO (XI XH)))) :: ((Zpos (XI (XO (XI
-    XH)))) :: ((Zpos (XO (XI (XI XH)))) :: ((Zpos (XI (XI (XI
-    XH)))) :: ((Zpos (XO (XO (XO (XO XH))))) :: ((Zpos (XI (XO (XO (XO
-    XH))))) :: ((Zpos (XO (XI (XO (XO XH))))) :: ((Zpos (XI (XI (XO (XO
-    XH))))) :: ((Zpos (XO (XO (XI (XO XH))))) :: ((Zpos (XI (XO (XI (XO
-    XH))))) :: ((Zpos (XO (XI (XI (XO XH))))) :: ((Zpos (XI (XI (XI (XO
-    XH))))) :: ((Zpos (XO (XO (XO (XI XH))))) :: ((Zpos (XI (XO (XO (XI
-    XH))))) :: ((Zneg XH) :: ((Zneg XH) :: ((Zneg XH) :: ((Zneg XH) :: ((Zneg
-    XH) :: ((Zneg XH) :: ((Zpos (XO (XI (XO (XI XH))))) :: ((Zpos (XI (XI (XO
-    (XI XH))))) :: ((Zpos (XO (XO (XI (XI XH))))) :: ((Zpos (XI (XO (XI (XI
-    XH))))) :: ((Zpos (XO (XI (XI (XI XH))))) :: ((Zpos (XI (XI (XI (XI
-    XH))))) :: ((Zpos (XO (XO (XO (XO (XO XH)))))) :: ((Zpos (XI (XO (XO (XO
-    (XO XH)))))) :: ((Zpos (XO (XI (XO (XO (XO XH)))))) :: ((Zpos (XI (XI (XO
-    (XO (XO XH)))))) :: ((Zpos (XO (XO (XI (XO (XO XH)))))) :: ((Zpos (XI (XO
-    (XI (XO (XO XH)))))) :: ((Zpos (XO (XI (XI (XO (XO XH)))))) :: ((Zpos (XI
-    (XI (XI (XO (XO XH)))))) :: ((Zpos (XO (XO (XO (XI (XO XH)))))) :: ((Zpos
-    (XI (XO (XO (XI (XO XH)))))) :: ((Zpos (XO (XI (XO (XI (XO
-    XH)))))) :: ((Zpos (XI (XI (XO (XI (XO XH)))))) :: ((Zpos (XO (XO (XI (XI
-    (XO XH)))))) :: ((Zpos (XI (XO (XI (XI (XO XH)))))) :: ((Zpos (XO (XI (XI
-    (XI (XO XH)))))) :: ((Zpos (XI (XI (XI (XI (XO XH)))))) :: ((Zpos (XO (XO
-    (XO (XO (XI XH)))))) :: ((Zpos (XI (XO (XO (XO (XI XH)))))) :: ((Zpos (XO
-    (XI (XO (XO (XI XH)))))) :: ((Zpos (XI (XI (XO (XO (XI XH)))))) :: ((Zneg
-    XH) :: ((Zneg XH) :: ((Zneg XH) :: ((Zneg XH) :: ((Zneg XH) :: ((Zneg
-    XH) :: ((Zneg XH) :: ((Zneg XH) :: ((Zneg XH) :: ((Zneg XH) :: ((Zneg
-    XH) :: ((Zneg XH) :: ((Zneg XH) :: ((Zneg XH) :: ((Zneg XH) :: ((Zneg
-    XH) :: ((Zneg XH) :: ((Zneg XH) :: ((Zneg XH) :: ((Zneg XH) :: ((Zneg
-    XH) :: ((Zneg XH) :: ((Zneg XH) :: ((Zneg XH) :: ((Zneg XH) :: ((Zneg
-    XH) :: ((Zneg XH) :: ((Zneg XH) :: ((Zneg XH) :: ((Zneg XH) :: ((Zneg
-    XH) :: ((Zneg XH) :: ((Zneg XH) :: ((Zneg XH) :: ((Zneg XH) :: ((Zneg
-    XH) :: ((Zneg XH) :: ((Zneg XH) :: ((Zneg XH) :: ((Zneg XH) :: ((Zneg
-    XH) :: ((Zneg XH) :: ((Zneg XH) :: ((Zneg XH) :: ((Zneg XH) :: ((Zneg
-    XH) :: ((Zneg XH) :: ((Zneg XH) :: ((Zneg XH) :: ((Zneg XH) :: ((Zneg
-    XH) :: ((Zneg XH) :: ((Zneg XH) :: ((Zneg XH) :: ((Zneg XH) :: ((Zneg
-    XH) :: ((Zneg XH) :: ((Zneg XH) :: ((Zneg XH) :: ((Zneg XH) :: ((Zneg
-    XH) :: ((Zneg XH) :: ((Zneg XH) :: ((Zneg XH) :: ((Zneg XH) :: ((Zneg
-    XH) :: ((Zneg XH) :: ((Zneg XH) :: ((Zneg XH) :: ((Zneg XH) :: ((Zneg
-    XH) :: ((Zneg XH) :: ((Zneg XH) :: ((Zneg XH) :: ((Zneg XH) :: ((Zneg
-    XH) :: ((Zneg XH) :: ((Zneg XH) :: ((Zneg XH) :: ((Zneg XH) :: ((Zneg
-    XH) :: ((Zneg XH) :: ((Zneg XH) :: ((Zneg XH) :: ((Zneg XH) :: ((Zneg
-    XH) :: ((Zneg XH) :: ((Zneg XH) :: ((Zneg XH) :: ((Zneg XH) :: ((Zneg
-    XH) :: ((Zneg XH) :: ((Zneg XH) :: ((Zneg XH) :: ((Zneg XH) :: ((Zneg
-    XH) :: ((Zneg XH) :: ((Zneg XH) :: ((Zneg XH) :: ((Zneg XH) :: ((Zneg
-    XH) :: ((Zneg XH) :: ((Zneg XH) :: ((Zneg XH) :: ((Zneg XH) :: ((Zneg
-    XH) :: ((Zneg XH) :: ((Zneg XH) :: ((Zneg XH) :: ((Zneg XH) :: ((Zneg
-    XH) :: ((Zneg XH) :: ((Zneg XH) :: ((Zneg XH) :: ((Zneg XH) :: ((Zneg
-    XH) :: ((Zneg XH) :: ((Zneg XH) :: ((Zneg XH) :: ((Zneg XH) :: ((Zneg
-    XH) :: ((Zneg XH) :: ((Zneg XH) :: ((Zneg XH) :: ((Zneg XH) :: ((Zneg
-    XH) :: ((Zneg XH) :: ((Zneg XH) :: ((Zneg XH) :: ((Zneg XH) :: ((Zneg
-    XH) :: ((Zneg XH) :: ((Zneg
-    XH) :: [])))))))))))))))))))))))))))))))))))))))))))))))))))))))))))))))))))))))))))))))))))))))))))))))))))))))))))))))))))))))))))))))))))))))))))))))))))))))))))))))))))))))))))))))))))))))))))))))))))))))))))))))))))))))))))))))))))))))))))))))))))))))))))))))
-
-(** val enc_val0 : z **)
-
-let enc_val0 =
-  Z0
-
-(** val enc_valb0 : z **)
-
-let enc_valb0 =
-  Zneg (XO (XI XH))
-
-(** val enc_shift : z **)
-
-let enc_shift =
-  Zpos (XO (XO (XO XH)))
-
-(** val enc_valb_add : z **)
-
-let enc_valb_add =
-  Zpos (XO (XO (XO XH)))
-
-(** val enc_loop_bound : z **)
-
-let enc_loop_bound =
-  Z0
-
-(** val enc_mask : z **)
-
-let enc_mask =
-  Zpos (XI (XI (XI (XI (XI XH)))))
-
-(** val enc_valb_sub : z **)
-
-let enc_valb_sub =
-  Zpos (XO (XI XH))
-
-(** val enc_tail_bound : z **)
-
-let enc_tail_bound =
-  Zneg (XO (XI XH))
-
-(** val enc_tail_shl : z **)
-
-let enc_tail_shl =
-  Zpos (XO (XO (XO XH)))
-
-(** val enc_tail_add : z **)
-
-let enc_tail_add =
-  Zpos (XO (XO (XO XH)))
-
-(** val enc_tail_mask : z **)
-
-let enc_tail_mask =
-  Zpos (XI (XI (XI (XI (XI XH)))))
-
-(** val enc_pad_mod : z **)
-
-let enc_pad_mod =
+let eINTR =
   Zpos (XO (XO XH))
 
-(** val pad_char : z **)
+(** val eINVAL : z **)
 
-let pad_char =
-  Zpos (XI (XO (XI (XI (XI XH)))))
+let eINVAL =
+  Zpos (XO (XI (XI (XO XH))))
 
-(** val dec_val0 : z **)
+(** val eIO : z **)
 
-let dec_val0 =
-  Z0
+let eIO =
+  Zpos (XI (XO XH))
 
-(** val dec_valb0 : z **)
+(** val eISDIR : z **)
 
-let dec_valb0 =
-  Zneg (XO (XO (XO XH)))
+let eISDIR =
+  Zpos (XI (XO (XI (XO XH))))
 
-(** val dec_pad_char : z **)
+(** val eNOSPC : z **)
 
-let dec_pad_char =
-  Zpos (XI (XO (XI (XI (XI XH)))))
+let eNOSPC =
+  Zpos (XO (XO (XI (XI XH))))
 
-(** val dec_reject : z **)
+(** val eNOTSUP : z **)
 
-let dec_reject =
-  Zneg XH
+let eNOTSUP =
+  Zpos (XI (XI (XI (XI (XI (XO XH))))))
 
-(** val dec_shift : z **)
+(** val ePIPE : z **)
 
-let dec_shift =
+let ePIPE =
+  Zpos (XO (XO (XO (XO (XO XH)))))
+
+(** val eROFS : z **)
+
+let eROFS =
+  Zpos (XO (XI (XI (XI XH))))
+
+(** val sIGABRT : z **)
+
+let sIGABRT =
   Zpos (XO (XI XH))
 
-(** val dec_valb_add : z **)
+(** val sIGPIPE : z **)
 
-let dec_valb_add =
-  Zpos (XO (XI XH))
+let sIGPIPE =
+  Zpos (XI (XO (XI XH)))
 
-(** val dec_out_bound : z **)
+(** val read_retry_errnos : z list **)
 
-let dec_out_bound =
+let read_retry_errnos =
+  eINTR :: []
+
+(** val read_throw_below : z **)
+
+let read_throw_below =
   Z0
 
-(** val dec_mask : z **)
+(** val write_retry_errnos : z list **)
 
-let dec_mask =
+let write_retry_errnos =
+  eINTR :: []
+
+(** val write_throw_below : z **)
+
+let write_throw_below =
+  Zpos XH
+
+(** val fsync_ignored_errnos : z list **)
+
+let fsync_ignored_errnos =
+  eROFS :: (eINVAL :: (eNOTSUP :: []))
+
+(** val close_failure_aborts : bool **)
+
+let close_failure_aborts =
+  true
+
+(** val kBufferSize : z **)
+
+let kBufferSize =
+  Zpos (XO (XO (XO (XO (XO (XO (XO (XO (XO (XO (XO (XO (XO XH)))))))))))))
+
+(** val wait_has_signal_branch : bool **)
+
+let wait_has_signal_branch =
+  true
+
+(** val wait_signal_base : z **)
+
+let wait_signal_base =
+  Zpos (XO (XO (XO (XO (XO (XO (XO XH)))))))
+
+(** val wait_fallback : z **)
+
+let wait_fallback =
   Zpos (XI (XI (XI (XI (XI (XI (XI XH)))))))
 
-(** val dec_valb_sub : z **)
+(** val cache_main_swallows_exceptions : bool **)
 
-let dec_valb_sub =
-  Zpos (XO (XO (XO XH)))
+let cache_main_swallows_exceptions =
+  false
 
-(** val tbl : z -> z **)
+(** val foldfilter_main_swallows_exceptions : bool **)
 
-let tbl i =
-  nth (Z.to_nat i) tABLE Z0
+let foldfilter_main_swallows_exceptions =
+  false
 
-(** val inv : z -> z **)
+(** val b64filter_main_swallows_exceptions : bool **)
 
-let inv c =
-  nth (Z.to_nat c) iNV_TABLE Z0
+let b64filter_main_swallows_exceptions =
+  false
 
-(** val sel : z -> z -> z -> z **)
+(** val process_unicode_flushes_cout : bool **)
 
-let sel val0 valb mask =
-  Z.coq_land (Z.shiftr val0 valb) mask
+let process_unicode_flushes_cout =
+  true
 
-(** val enc_drain : nat -> z -> z -> (z list * z) option **)
+(** val process_unicode_checks_cout : bool **)
 
-let rec enc_drain fuel val0 valb =
-  if Z.geb valb enc_loop_bound
-  then (match fuel with
-        | O -> None
-        | S f ->
-          (match enc_drain f val0 (Z.sub valb enc_valb_sub) with
-           | Some p ->
-             let (o, vb) = p in
-             Some (((tbl (sel val0 valb enc_mask)) :: o), vb)
-           | None -> None))
-  else Some ([], valb)
+let process_unicode_checks_cout =
+  true
 
-(** val drain_fuel : nat **)
+(** val process_unicode_cout_fail_code : z **)
 
-let drain_fuel =
-  S (S (S (S (S (S (S (S O)))))))
+let process_unicode_cout_fail_code =
+  Zpos XH
 
-(** val enc_bytes : z list -> z -> z -> ((z list * z) * z) option **)
+(** val process_unicode_checks_cin : bool **)
 
-let rec enc_bytes bs val0 valb =
-  match bs with
-  | [] -> Some (([], val0), valb)
-  | c :: r ->
-    let val' = wrap32 (Z.add (Z.mul val0 (Z.pow (Zpos (XO XH)) enc_shift)) c)
-    in
-    (match enc_drain drain_fuel val' (Z.add valb enc_valb_add) with
-     | Some p ->
-       let (o, vb) = p in
-       (match enc_bytes r val' vb with
-        | Some p0 ->
-          let (p1, b) = p0 in let (o2, v) = p1 in Some (((app o o2), v), b)
-        | None -> None)
-     | None -> None)
+let process_unicode_checks_cin =
+  true
 
-(** val enc_pad : nat -> z list **)
+(** val mmhsum_flushes_cout : bool **)
 
-let enc_pad n0 =
-  repeat pad_char
-    (Z.to_nat
-      (Z.modulo (Z.sub enc_pad_mod (Z.modulo (Z.of_nat n0) enc_pad_mod))
-        enc_pad_mod))
+let mmhsum_flushes_cout =
+  true
 
-(** val base64_encode : z list -> z list option **)
+(** val mmhsum_checks_cout : bool **)
 
-let base64_encode bs =
-  match enc_bytes bs enc_val0 enc_valb0 with
-  | Some p ->
-    let (p0, valb) = p in
-    let (o, val0) = p0 in
-    let o' =
-      if Z.gtb valb enc_tail_bound
-      then app o
-             ((tbl
-                (sel
-                  (wrap32 (Z.mul val0 (Z.pow (Zpos (XO XH)) enc_tail_shl)))
-                  (Z.add valb enc_tail_add) enc_tail_mask)) :: [])
-      else o
-    in
-    Some (app o' (enc_pad (length o')))
-  | None -> None
+let mmhsum_checks_cout =
+  true
 
-type dres =
-| DOk of z list
-| DBadChar of z
-| DLengthError
+(** val mmhsum_cout_fail_code : z **)
 
-(** val count_padding_rev : z list -> nat **)
+let mmhsum_cout_fail_code =
+  Zpos XH
 
-let rec count_padding_rev = function
-| [] -> O
-| c :: r' ->
-  if Z.eqb c (Zpos (XI (XO (XI (XI (XI XH))))))
-  then S (count_padding_rev r')
-  else O
+(** val mmhsum_checks_cin : bool **)
 
-(** val count_padding : z list -> nat **)
+let mmhsum_checks_cin =
+  true
 
-let count_padding cs =
-  count_padding_rev (rev cs)
+(** val gigaword_unwrap_flushes_cout : bool **)
 
-(** val dec_loop : z list -> z -> z -> dres **)
+let gigaword_unwrap_flushes_cout =
+  true
 
-let rec dec_loop cs val0 valb =
-  match cs with
-  | [] -> DOk []
-  | c :: r ->
-    if Z.eqb c dec_pad_char
-    then DOk []
-    else if Z.eqb (inv c) dec_reject
-         then DBadChar c
-         else let val' =
-                wrap32
-                  (Z.add (Z.mul val0 (Z.pow (Zpos (XO XH)) dec_shift))
-                    (inv c))
-              in
-              let valb' = Z.add valb dec_valb_add in
-              if Z.geb valb' dec_out_bound
-              then (match dec_loop r val' (Z.sub valb' dec_valb_sub) with
-                    | DOk o -> DOk ((sel val' valb' dec_mask) :: o)
-                    | x -> x)
-              else dec_loop r val' valb'
+(** val gigaword_unwrap_checks_cout : bool **)
 
-(** val base64_decode : z list -> dres **)
+let gigaword_unwrap_checks_cout =
+  true
 
-let base64_decode cs =
-  if Z.ltb
-       (Z.div (Z.mul (Z.of_nat (length cs)) (Zpos (XI XH))) (Zpos (XO (XO
-         XH)))) (Z.of_nat (count_padding cs))
-  then DLengthError
-  else dec_loop cs dec_val0 dec_valb0
+(** val gigaword_unwrap_cout_fail_code : z **)
 
-(** val b64_alphabet : z list **)
+let gigaword_unwrap_cout_fail_code =
+  Zpos XH
 
-let b64_alphabet =
-  map Z.of_nat
-    (app
-      (seq (S (S (S (S (S (S (S (S (S (S (S (S (S (S (S (S (S (S (S (S (S (S
-        (S (S (S (S (S (S (S (S (S (S (S (S (S (S (S (S (S (S (S (S (S (S (S
-        (S (S (S (S (S (S (S (S (S (S (S (S (S (S (S (S (S (S (S (S
-        O))))))))))))))))))))))))))))))))))))))))))))))))))))))))))))))))) (S
-        (S (S (S (S (S (S (S (S (S (S (S (S (S (S (S (S (S (S (S (S (S (S (S
-        (S (S O)))))))))))))))))))))))))))
-      (app
-        (seq (S (S (S (S (S (S (S (S (S (S (S (S (S (S (S (S (S (S (S (S (S
-          (S (S (S (S (S (S (S (S (S (S (S (S (S (S (S (S (S (S (S (S (S (S
-          (S (S (S (S (S (S (S (S (S (S (S (S (S (S (S (S (S (S (S (S (S (S
-          (S (S (S (S (S (S (S (S (S (S (S (S (S (S (S (S (S (S (S (S (S (S
-          (S (S (S (S (S (S (S (S (S (S
-          O)))))))))))))))))))))))))))))))))))))))))))))))))))))))))))))))))))))))))))))))))))))))))))))))))
-          (S (S (S (S (S (S (S (S (S (S (S (S (S (S (S (S (S (S (S (S (S (S
-          (S (S (S (S O)))))))))))))))))))))))))))
-        (app
-          (seq (S (S (S (S (S (S (S (S (S (S (S (S (S (S (S (S (S (S (S (S (S
-            (S (S (S (S (S (S (S (S (S (S (S (S (S (S (S (S (S (S (S (S (S (S
-            (S (S (S (S (S O))))))))))))))))))))))))))))))))))))))))))))))))
-            (S (S (S (S (S (S (S (S (S (S O))))))))))) ((S (S (S (S (S (S (S
-          (S (S (S (S (S (S (S (S (S (S (S (S (S (S (S (S (S (S (S (S (S (S
-          (S (S (S (S (S (S (S (S (S (S (S (S (S (S
-          O))))))))))))))))))))))))))))))))))))))))))) :: ((S (S (S (S (S (S
-          (S (S (S (S (S (S (S (S (S (S (S (S (S (S (S (S (S (S (S (S (S (S
-          (S (S (S (S (S (S (S (S (S (S (S (S (S (S (S (S (S (S (S
-          O))))))))))))))))))))))))))))))))))))))))))))))) :: [])))))
+(** val gigaword_unwrap_checks_cin : bool **)
 
-(** val alpha : z -> z **)
+let gigaword_unwrap_checks_cin =
+  true
 
-let alpha i =
-  nth (Z.to_nat i) b64_alphabet Z0
+(** val order_independent_hash_flushes_cout : bool **)
 
-(** val rfc4648 : z list -> z list **)
+let order_independent_hash_flushes_cout =
+  true
 
-let rec rfc4648 = function
+(** val order_independent_hash_checks_cout : bool **)
+
+let order_independent_hash_checks_cout =
+  true
+
+(** val order_independent_hash_cout_fail_code : z **)
+
+let order_independent_hash_cout_fail_code =
+  Zpos XH
+
+(** val order_independent_hash_checks_cin : bool **)
+
+let order_independent_hash_checks_cin =
+  true
+
+type op =
+| OpRead
+| OpWrite
+| OpFsync
+| OpClose
+
+type outcome =
+| Ok of z * z list
+| Err of z
+
+type event = { ev_op : op; ev_fd : z; ev_req : z; ev_data : z list;
+               ev_out : outcome }
+
+(** val default_outcome : op -> z -> outcome **)
+
+let default_outcome o req =
+  match o with
+  | OpWrite -> Ok (req, [])
+  | _ -> Ok (Z0, [])
+
+type 'a res =
+| Val of 'a
+| Exn
+| Abort
+| Fuel
+
+(** val cast : 'a1 res -> 'a2 res **)
+
+let cast = function
+| Abort -> Abort
+| Fuel -> Fuel
+| _ -> Exn
+
+type 'a m = outcome list -> ('a res * event list) * outcome list
+
+(** val ret : 'a1 -> 'a1 m **)
+
+let ret a orc =
+  (((Val a), []), orc)
+
+(** val bind : 'a1 m -> ('a1 -> 'a2 m) -> 'a2 m **)
+
+let bind m0 k orc =
+  let (p, orc') = m0 orc in
+  let (r, ev) = p in
+  (match r with
+   | Val a ->
+     let (p0, orc'') = k a orc' in
+     let (r0, ev') = p0 in ((r0, (app ev ev')), orc'')
+   | _ -> (((cast r), ev), orc'))
+
+(** val sys :
+    op -> z -> z -> z list -> outcome list -> (outcome * event
+    list) * outcome list **)
+
+let sys o fd req data = function
+| [] ->
+  let r = default_outcome o req in
+  ((r, ({ ev_op = o; ev_fd = fd; ev_req = req; ev_data = data; ev_out =
+  r } :: [])), [])
+| r :: rest ->
+  ((r, ({ ev_op = o; ev_fd = fd; ev_req = req; ev_data = data; ev_out =
+    r } :: [])), rest)
+
+(** val zmem : z -> z list -> bool **)
+
+let zmem x l =
+  existsb (Z.eqb x) l
+
+(** val partial_read :
+    nat -> z -> z -> outcome list -> (z list res * event list) * outcome list **)
+
+let rec partial_read fuel fd amount orc =
+  match fuel with
+  | O -> ((Fuel, []), orc)
+  | S f ->
+    let (p, orc') = sys OpRead fd amount [] orc in
+    let (o, ev) = p in
+    (match o with
+     | Ok (n0, d) ->
+       if Z.ltb n0 read_throw_below
+       then ((Exn, ev), orc')
+       else (((Val d), ev), orc')
+     | Err e ->
+       if zmem e read_retry_errnos
+       then let (p0, orc'') = partial_read f fd amount orc' in
+            let (r, ev') = p0 in ((r, (app ev ev')), orc'')
+       else ((Exn, ev), orc'))
+
+(** val partialRead : z -> z -> z list m **)
+
+let partialRead fd amount orc =
+  partial_read (S (length orc)) fd amount orc
+
+(** val write_or_throw :
+    nat -> z -> z list -> outcome list -> (unit res * event list) * outcome
+    list **)
+
+let rec write_or_throw fuel fd data orc =
+  match data with
+  | [] -> (((Val ()), []), orc)
+  | _ :: _ ->
+    (match fuel with
+     | O -> ((Fuel, []), orc)
+     | S f ->
+       let (p, orc') = sys OpWrite fd (Z.of_nat (length data)) data orc in
+       let (o, ev) = p in
+       (match o with
+        | Ok (n0, _) ->
+          if Z.ltb n0 write_throw_below
+          then ((Exn, ev), orc')
+          else let (p0, orc'') =
+                 write_or_throw f fd (skipn (Z.to_nat n0) data) orc'
+               in
+               let (r, ev') = p0 in ((r, (app ev ev')), orc'')
+        | Err e ->
+          if zmem e write_retry_errnos
+          then let (p0, orc'') = write_or_throw f fd data orc' in
+               let (r, ev') = p0 in ((r, (app ev ev')), orc'')
+          else ((Exn, ev), orc')))
+
+(** val writeOrThrow : z -> z list -> unit m **)
+
+let writeOrThrow fd data orc =
+  write_or_throw (S (add (length data) (length orc))) fd data orc
+
+(** val fSyncIgnoreUnsupported : z -> unit m **)
+
+let fSyncIgnoreUnsupported fd orc =
+  let (p, orc') = sys OpFsync fd Z0 [] orc in
+  let (o, ev) = p in
+  (match o with
+   | Ok (_, _) -> (((Val ()), ev), orc')
+   | Err e ->
+     if zmem e fsync_ignored_errnos
+     then (((Val ()), ev), orc')
+     else ((Exn, ev), orc'))
+
+(** val close_scoped_fd : z -> unit m **)
+
+let close_scoped_fd fd orc =
+  let (p, orc') = sys OpClose fd Z0 [] orc in
+  let (o, ev) = p in
+  (match o with
+   | Ok (_, _) -> (((Val ()), ev), orc')
+   | Err _ ->
+     if close_failure_aborts
+     then ((Abort, ev), orc')
+     else (((Val ()), ev), orc'))
+
+(** val in_destructor : 'a1 m -> 'a1 m **)
+
+let in_destructor m0 orc =
+  let (p, orc') = m0 orc in
+  let (r, ev) = p in
+  (match r with
+   | Exn -> ((Abort, ev), orc')
+   | x -> ((x, ev), orc'))
+
+type bstream = { bs_fd : z; bs_buf : z list }
+
+(** val blen : z list -> z **)
+
+let blen l =
+  Z.of_nat (length l)
+
+(** val spillBuffer : bstream -> bstream m **)
+
+let spillBuffer s =
+  match s.bs_buf with
+  | [] -> ret s
+  | _ :: _ ->
+    bind (writeOrThrow s.bs_fd s.bs_buf) (fun _ ->
+      ret { bs_fd = s.bs_fd; bs_buf = [] })
+
+(** val bs_write : bstream -> z list -> bstream m **)
+
+let bs_write s data =
+  if Z.leb (Z.add (blen s.bs_buf) (blen data)) kBufferSize
+  then ret { bs_fd = s.bs_fd; bs_buf = (app s.bs_buf data) }
+  else bind (spillBuffer s) (fun s1 ->
+         if Z.leb (Z.add (blen s1.bs_buf) (blen data)) kBufferSize
+         then ret { bs_fd = s1.bs_fd; bs_buf = (app s1.bs_buf data) }
+         else bind (writeOrThrow s1.bs_fd data) (fun _ -> ret s1))
+
+(** val bs_flush : bstream -> bstream m **)
+
+let bs_flush s =
+  bind (spillBuffer s) (fun s1 ->
+    bind (fSyncIgnoreUnsupported s1.bs_fd) (fun _ -> ret s1))
+
+(** val bs_destroy : bstream -> unit m **)
+
+let bs_destroy s =
+  bind (in_destructor (bs_flush s)) (fun s1 -> close_scoped_fd s1.bs_fd)
+
+type status =
+| Exited of z
+| Signaled of z
+| StFuel
+
+(** val status_of : z res -> status **)
+
+let status_of = function
+| Val c ->
+  Exited (Z.modulo c (Zpos (XO (XO (XO (XO (XO (XO (XO (XO XH))))))))))
+| Fuel -> StFuel
+| _ -> Signaled sIGABRT
+
+(** val tool_loop :
+    ('a1 -> z list -> 'a1 * z list) -> z -> nat -> 'a1 -> bstream -> outcome
+    list -> (('a1 * bstream) res * event list) * outcome list **)
+
+let rec tool_loop step chunk fuel s o orc =
+  match fuel with
+  | O -> ((Fuel, []), orc)
+  | S f ->
+    let (p, orc1) = partialRead Z0 chunk orc in
+    let (r, ev) = p in
+    (match r with
+     | Val d ->
+       (match d with
+        | [] -> (((Val (s, o)), ev), orc1)
+        | _ :: _ ->
+          let (s', out) = step s d in
+          let (p0, orc2) = bs_write o out orc1 in
+          let (r0, ev2) = p0 in
+          (match r0 with
+           | Val o' ->
+             let (p1, orc3) = tool_loop step chunk f s' o' orc2 in
+             let (r1, ev3) = p1 in ((r1, (app ev (app ev2 ev3))), orc3)
+           | _ -> (((cast r0), (app ev ev2)), orc2)))
+     | _ -> (((cast r), ev), orc1))
+
+(** val tool_main :
+    ('a1 -> z list -> 'a1 * z list) -> ('a1 -> z list) -> z -> 'a1 -> z m **)
+
+let tool_main step fin chunk s0 =
+  bind (fun orc ->
+    tool_loop step chunk (S (length orc)) s0 { bs_fd = (Zpos XH); bs_buf =
+      [] } orc) (fun so ->
+    bind (bs_write (snd so) (fin (fst so))) (fun o ->
+      bind (bs_destroy o) (fun _ ->
+        bind (close_scoped_fd Z0) (fun _ -> ret Z0))))
+
+(** val tool_run :
+    ('a1 -> z list -> 'a1 * z list) -> ('a1 -> z list) -> z -> 'a1 -> outcome
+    list -> status * event list **)
+
+let tool_run step fin chunk s0 orc =
+  let (p, _) = tool_main step fin chunk s0 orc in
+  let (r, ev) = p in ((status_of r), ev)
+
+type act =
+| ARead of z * z
+| AWrite of z * z list
+| AFsync of z
+| AClose of z
+| AFlushClose of z * z list
+
+(** val do_act : act -> unit m **)
+
+let do_act = function
+| ARead (fd, req) -> bind (partialRead fd req) (fun _ -> ret ())
+| AWrite (fd, d) -> writeOrThrow fd d
+| AFsync fd -> fSyncIgnoreUnsupported fd
+| AClose fd -> close_scoped_fd fd
+| AFlushClose (fd, d) -> bs_destroy { bs_fd = fd; bs_buf = d }
+
+(** val run_script : act list -> unit m **)
+
+let rec run_script = function
+| [] -> ret ()
+| a :: r -> bind (do_act a) (fun _ -> run_script r)
+
+(** val script_run :
+    bool -> act list -> outcome list -> status * event list **)
+
+let script_run catches acts orc =
+  let (p, _) = run_script acts orc in
+  let (r, ev) = p in
+  (match r with
+   | Val _ -> ((Exited Z0), ev)
+   | Exn -> ((if catches then Exited (Zpos XH) else Signaled sIGABRT), ev)
+   | Abort -> ((Signaled sIGABRT), ev)
+   | Fuel -> (StFuel, ev))
+
+(** val ev_failed : event -> bool **)
+
+let ev_failed e =
+  match e.ev_out with
+  | Ok (n0, _) ->
+    (match e.ev_op with
+     | OpRead -> Z.ltb n0 read_throw_below
+     | OpWrite -> Z.ltb n0 write_throw_below
+     | _ -> false)
+  | Err x ->
+    (match e.ev_op with
+     | OpRead -> negb (zmem x read_retry_errnos)
+     | OpWrite -> negb (zmem x write_retry_errnos)
+     | OpFsync -> negb (zmem x fsync_ignored_errnos)
+     | OpClose -> close_failure_aborts)
+
+(** val any_failed : event list -> bool **)
+
+let any_failed evs =
+  existsb ev_failed evs
+
+(** val is_write : op -> bool **)
+
+let is_write = function
+| OpWrite -> true
+| _ -> false
+
+(** val accepted : z -> event list -> z list **)
+
+let rec accepted fd = function
 | [] -> []
-| b0 :: l ->
-  (match l with
-   | [] ->
-     (alpha (Z.div b0 (Zpos (XO (XO XH))))) :: ((alpha
-                                                  (Z.mul
-                                                    (Z.modulo b0 (Zpos (XO
-                                                      (XO XH)))) (Zpos (XO
-                                                    (XO (XO (XO XH))))))) :: ((Zpos
-       (XI (XO (XI (XI (XI XH)))))) :: ((Zpos (XI (XO (XI (XI (XI
-       XH)))))) :: [])))
-   | b1 :: l0 ->
-     (match l0 with
-      | [] ->
-        (alpha (Z.div b0 (Zpos (XO (XO XH))))) :: ((alpha
-                                                     (Z.add
-                                                       (Z.mul
-                                                         (Z.modulo b0 (Zpos
-                                                           (XO (XO XH))))
-                                                         (Zpos (XO (XO (XO
-                                                         (XO XH))))))
-                                                       (Z.div b1 (Zpos (XO
-                                                         (XO (XO (XO XH)))))))) :: (
-          (alpha
-            (Z.mul (Z.modulo b1 (Zpos (XO (XO (XO (XO XH)))))) (Zpos (XO (XO
-              XH))))) :: ((Zpos (XI (XO (XI (XI (XI XH)))))) :: [])))
-      | b2 :: r ->
-        app
-          ((alpha (Z.div b0 (Zpos (XO (XO XH))))) :: ((alpha
-                                                        (Z.add
-                                                          (Z.mul
-                                                            (Z.modulo b0
-                                                              (Zpos (XO (XO
-                                                              XH)))) (Zpos
-                                                            (XO (XO (XO (XO
-                                                            XH))))))
-                                                          (Z.div b1 (Zpos (XO
-                                                            (XO (XO (XO
-                                                            XH)))))))) :: (
-          (alpha
-            (Z.add
-              (Z.mul (Z.modulo b1 (Zpos (XO (XO (XO (XO XH)))))) (Zpos (XO
-                (XO XH)))) (Z.div b2 (Zpos (XO (XO (XO (XO (XO (XO XH)))))))))) :: (
-          (alpha (Z.modulo b2 (Zpos (XO (XO (XO (XO (XO (XO XH))))))))) :: []))))
-          (rfc4648 r)))
+| e :: r ->
+  app
+    (if (&&) (is_write e.ev_op) (Z.eqb e.ev_fd fd)
+     then (match e.ev_out with
+           | Ok (n0, _) -> firstn (Z.to_nat n0) e.ev_data
+           | Err _ -> [])
+     else []) (accepted fd r)
 
-(** val strip_padding : z list -> z list **)
+(** val try_write : z -> z list -> bool m **)
 
-let strip_padding cs =
-  rev (skipn (count_padding cs) (rev cs))
+let try_write fd data orc =
+  let (p, orc') = writeOrThrow fd data orc in
+  let (r, ev) = p in
+  (match r with
+   | Val _ -> (((Val true), ev), orc')
+   | Exn -> (((Val false), ev), orc')
+   | _ -> (((cast r), ev), orc'))
+
+(** val cout_emit : z list list -> bool -> bool m **)
+
+let rec cout_emit chunks bad =
+  match chunks with
+  | [] -> ret bad
+  | c :: r ->
+    if bad
+    then ret true
+    else bind (try_write (Zpos XH) c) (fun ok -> cout_emit r (negb ok))
+
+(** val cin_read_all :
+    nat -> outcome list -> (bool res * event list) * outcome list **)
+
+let rec cin_read_all fuel orc =
+  match fuel with
+  | O -> ((Fuel, []), orc)
+  | S f ->
+    let (p, orc') =
+      partialRead Z0 (Zpos (XO (XO (XO (XO (XO (XO (XO (XO (XO (XO (XO (XO
+        XH))))))))))))) orc
+    in
+    let (r, ev) = p in
+    (match r with
+     | Val a ->
+       (match a with
+        | [] -> (((Val false), ev), orc')
+        | _ :: _ ->
+          let (p0, orc'') = cin_read_all f orc' in
+          let (r0, ev') = p0 in ((r0, (app ev ev')), orc''))
+     | Exn -> (((Val true), ev), orc')
+     | _ -> (((cast r), ev), orc'))
+
+type ioconf = { io_flushes : bool; io_checks_cout : bool; io_fail_code : 
+                z; io_checks_cin : bool; io_uses_cin : bool }
+
+(** val cout_part : ioconf -> z list list -> z list list -> z m **)
+
+let cout_part cf early late =
+  bind (cout_emit early false) (fun bad1 ->
+    if cf.io_flushes
+    then bind (cout_emit late bad1) (fun bad2 ->
+           ret (if (&&) bad2 cf.io_checks_cout then cf.io_fail_code else Z0))
+    else let code =
+           if (&&) bad1 cf.io_checks_cout then cf.io_fail_code else Z0
+         in
+         bind (cout_emit late bad1) (fun _ -> ret code))
+
+(** val iostream_main : ioconf -> z list list -> z list list -> z m **)
+
+let iostream_main cf early late =
+  bind
+    (if cf.io_uses_cin
+     then (fun orc -> cin_read_all (S (length orc)) orc)
+     else ret false) (fun rerr ->
+    if (&&) rerr cf.io_checks_cin
+    then ret (Zpos XH)
+    else cout_part cf early late)
+
+(** val iostream_run :
+    ioconf -> z list list -> z list list -> outcome list -> status * event
+    list **)
+
+let iostream_run cf early late orc =
+  let (p, _) = iostream_main cf early late orc in
+  let (r, ev) = p in ((status_of r), ev)
+
+(** val conf_process_unicode : ioconf **)
+
+let conf_process_unicode =
+  { io_flushes = process_unicode_flushes_cout; io_checks_cout =
+    process_unicode_checks_cout; io_fail_code =
+    process_unicode_cout_fail_code; io_checks_cin =
+    process_unicode_checks_cin; io_uses_cin = true }
+
+(** val conf_mmhsum : ioconf **)
+
+let conf_mmhsum =
+  { io_flushes = mmhsum_flushes_cout; io_checks_cout = mmhsum_checks_cout;
+    io_fail_code = mmhsum_cout_fail_code; io_checks_cin = mmhsum_checks_cin;
+    io_uses_cin = true }
+
+(** val conf_gigaword_unwrap : ioconf **)
+
+let conf_gigaword_unwrap =
+  { io_flushes = gigaword_unwrap_flushes_cout; io_checks_cout =
+    gigaword_unwrap_checks_cout; io_fail_code =
+    gigaword_unwrap_cout_fail_code; io_checks_cin =
+    gigaword_unwrap_checks_cin; io_uses_cin = false }
+
+(** val conf_order_independent_hash : ioconf **)
+
+let conf_order_independent_hash =
+  { io_flushes = order_independent_hash_flushes_cout; io_checks_cout =
+    order_independent_hash_checks_cout; io_fail_code =
+    order_independent_hash_cout_fail_code; io_checks_cin =
+    order_independent_hash_checks_cin; io_uses_cin = false }
+
+type term =
+| TExit of z
+| TSignal of z * bool
+
+(** val wstatus : term -> z **)
+
+let wstatus = function
+| TExit c ->
+  Z.mul (Z.modulo c (Zpos (XO (XO (XO (XO (XO (XO (XO (XO XH)))))))))) (Zpos
+    (XO (XO (XO (XO (XO (XO (XO (XO XH)))))))))
+| TSignal (s, core) ->
+  Z.add (Z.modulo s (Zpos (XO (XO (XO (XO (XO (XO (XO XH)))))))))
+    (if core then Zpos (XO (XO (XO (XO (XO (XO (XO XH))))))) else Z0)
+
+(** val wIFEXITED : z -> bool **)
+
+let wIFEXITED w =
+  Z.eqb (Z.coq_land w (Zpos (XI (XI (XI (XI (XI (XI XH)))))))) Z0
+
+(** val wEXITSTATUS : z -> z **)
+
+let wEXITSTATUS w =
+  Z.coq_land (Z.shiftr w (Zpos (XO (XO (XO XH))))) (Zpos (XI (XI (XI (XI (XI
+    (XI (XI XH))))))))
+
+(** val wTERMSIG : z -> z **)
+
+let wTERMSIG w =
+  Z.coq_land w (Zpos (XI (XI (XI (XI (XI (XI XH)))))))
+
+(** val wIFSIGNALED : z -> bool **)
+
+let wIFSIGNALED w =
+  (&&) (Z.ltb Z0 (Z.coq_land w (Zpos (XI (XI (XI (XI (XI (XI XH)))))))))
+    (Z.ltb (Z.coq_land w (Zpos (XI (XI (XI (XI (XI (XI XH)))))))) (Zpos (XI
+      (XI (XI (XI (XI (XI XH))))))))
+
+(** val wait : z -> z **)
+
+let wait w =
+  if wIFEXITED w
+  then wEXITSTATUS w
+  else if (&&) wait_has_signal_branch (wIFSIGNALED w)
+       then Z.add wait_signal_base (wTERMSIG w)
+       else wait_fallback
+
+type wrapper =
+| Cache
+| Foldfilter
+| B64filter
+
+(** val collect : nat list -> nat -> nat option **)
+
+let rec collect needs avail =
+  match needs with
+  | [] -> Some avail
+  | n0 :: r -> if Nat.leb n0 avail then collect r (sub avail n0) else None
+
+(** val swallows : wrapper -> bool **)
+
+let swallows = function
+| Cache -> cache_main_swallows_exceptions
+| Foldfilter -> foldfilter_main_swallows_exceptions
+| B64filter -> b64filter_main_swallows_exceptions
+
+(** val wrapper_status :
+    wrapper -> nat list -> nat -> term -> bool -> status **)
+
+let wrapper_status wr needs child_lines t feeder_ok =
+  let ret0 = Exited
+    (Z.modulo (wait (wstatus t)) (Zpos (XO (XO (XO (XO (XO (XO (XO (XO
+      XH))))))))))
+  in
+  if swallows wr
+  then ret0
+  else (match collect needs child_lines with
+        | Some rest ->
+          if negb feeder_ok
+          then Signaled sIGABRT
+          else (match wr with
+                | B64filter ->
+                  if Nat.ltb O rest then Signaled sIGABRT else ret0
+                | _ -> ret0)
+        | None -> Signaled sIGABRT)
